@@ -411,7 +411,13 @@ package leader
 //@   on ret attemptAcquire set waitedSince = false
 //@   on call CalculateBackoff as c assert C17.round_backoff_config: c.cfg.InitialBackoff == 50000000 && c.cfg.MaxBackoff == 5000000000 && c.cfg.BackoffMultiplier == 2.0 && c.cfg.Jitter == 0.1 && c.attempt == attempts - 1
 //@   on ret CalculateBackoff as c set lastBackoff = c.result
-//@   loop 0 invariant C17.round_shape: 0 <= $v && $v <= 4 && attempts == $v && jitterWaited && jitterArmed && (attempts == 0 || waitedSince)
+//@   ghost lastErrNonNil Bool = false
+//@   on ret attemptAcquire as r set lastErrNonNil = r.result != nil
+//@   on call becomeFollower assert C06+C07.fallback_only_after_last_attempt_failed: attempts == 4 && lastErrNonNil
+//@   ghost bfCalled Bool = false
+//@   on call becomeFollower set bfCalled = true
+//@   on return assert C06.exhausted_round_returns_to_follower: attempts == 4 && lastErrNonNil ==> bfCalled
+//@   loop 0 invariant C17.round_shape: 0 <= $v && $v <= 3 && attempts == $v && jitterWaited && jitterArmed && (attempts == 0 || waitedSince) && !bfCalled && (attempts > 0 ==> lastErrNonNil)
 
 //@ func (e *kvElection) attemptAcquire()
 //@   tags C01 C05 C10 C02 C13
@@ -633,6 +639,10 @@ package leader
 //@   on recv ticker set hbfCalled = false
 //@   on recv ticker set revLoaded = false
 //@   on call HealthChecker.Check as c assert C12.ctx_100ms: origin(c.ctx, "ctx:derived") && CtxTimeout(c.ctx) == 100000000 && CtxParent(c.ctx) == ctx
+//@   ghost unhealthyThisTick Bool = false
+//@   on recv ticker set unhealthyThisTick = false
+//@   on ret HealthChecker.Check as c set unhealthyThisTick = !c.result
+//@   on spawn heartbeatLoop$1 assert C12.unhealthy_tick_skips_refresh: !unhealthyThisTick
 //@   on ret HealthChecker.Check as c set streak = c.result ? 0 : streak + 1
 //@   on call handleHealthCheckFailure assert C12.demote_exactly_at_threshold: streak == MaxHealth(e.cfg)
 //@   on call handleHealthCheckFailure set health_exhausted = streak >= MaxHealth(e.cfg)
@@ -787,6 +797,10 @@ package leader
 //@   on spawn handleWatchEvent$1 assert C10.watch_gate: e.cfg.AllowPriorityTakeover && ParseOK(EntryVal(entry)) && e.cfg.Priority > PrioOf(EntryVal(entry))
 //@   ensures C06.vacancy_triggers_acquire: entry == nil || LenOf(EntryVal(entry)) == 0 ==> spawns(attemptAcquireWithRetry) == 1
 //@   ensures C13.no_acquire_on_live_record: entry != nil && LenOf(EntryVal(entry)) != 0 ==> spawns(attemptAcquireWithRetry) == 0
+//@   ghost knownLeader Int = 0
+//@   on load kvElection.leaderID as l set knownLeader = l.value
+//@   ensures C10.reevaluates_each_event: entry != nil && LenOf(EntryVal(entry)) != 0 && ParseOK(EntryVal(entry)) && !sawLeader && knownLeader == IDOf(EntryVal(entry)) && e.cfg.AllowPriorityTakeover && e.cfg.Priority > PrioOf(EntryVal(entry)) ==> spawns(handleWatchEvent$1) == 1
+//@   ensures C10.no_takeover_attempt_otherwise: spawns(handleWatchEvent$1) == 1 ==> e.cfg.AllowPriorityTakeover && ParseOK(EntryVal(entry)) && e.cfg.Priority > PrioOf(EntryVal(entry))
 //@   ensures C13.ignore_unparsable: entry != nil && LenOf(EntryVal(entry)) != 0 && !ParseOK(EntryVal(entry)) ==> calls(becomeFollower) == 0 && spawns(handleWatchEvent$1) == 0
 //@   ensures C08.demote_iff_claim_cleared: calls(onDemote) == (cleared ? 1 : 0)
 
